@@ -53,15 +53,15 @@ var vparseSeeds = []vseed{
 	{ast.FormatHTML, false, "{% var a = ", " %}"},
 	{ast.FormatMarkdown, false, "{{ ", " }}"},
 	{ast.FormatText, true, "package p;", ""},
-	{ast.FormatText, true, "func f() {", "}"},
-	{ast.FormatText, true, "var a = ", "\n"},
-	{ast.FormatText, true, "import \"", "\""},
+	{ast.FormatText, true, "package p;func f() {", "}"},
+	{ast.FormatText, true, "package p;var a = ", "\n"},
+	{ast.FormatText, true, "package p;import \"", "\""},
 }
 
 func vparseSeeded(n int) {
 	sd := vparseSeeds[vsym_choice(len(vparseSeeds))]
 	if sd.program {
-		vparseProgram(sd.prefix, sd.suffix, n, true)
+		vparseProgram(sd.prefix, sd.suffix, n, false)
 	} else {
 		vparseTemplate(sd.format, sd.prefix, sd.suffix, n, false)
 	}
@@ -75,5 +75,5 @@ func vh_c04_parse_seeds_q()    { vparseSeeded(2) }
 
 func vh_c04_parse_html_t()    { vparseTemplate(ast.FormatHTML, "", "", 5, false) }
 func vh_c04_parse_md_t()      { vparseTemplate(ast.FormatMarkdown, "", "", 4, false) }
-func vh_c04_parse_program_t() { vparseProgram("", "", 3, true) }
+func vh_c04_parse_program_t() { vparseProgram("", "", 3, false) }
 func vh_c04_parse_seeds_t()   { vparseSeeded(3) }
